@@ -91,7 +91,7 @@ theorem toNextCall_cases (s : St) :
     dsimp only
     split <;> simp
 
-theorem toNextCall_cpc (s : St) (pc : CPc) : toNextCall { s with cpc := pc } = toNextCall s := by
+theorem toNextCall_setCpc (s : St) (pc : CPc) : toNextCall { s with cpc := pc } = toNextCall s := by
   unfold toNextCall
   cases s.callsLeft <;> rfl
 
